@@ -322,6 +322,12 @@ func runR15_3(c *Ctx, r *R) {
 			b, ok := v.Type().Underlying().(*types.Basic)
 			return ok && b.Kind() == types.Int32 // rune
 		})
+		for k := range producerLabels(f, func(v ssa.Value) bool {
+			b, ok := v.Type().Underlying().(*types.Basic)
+			return ok && b.Kind() == types.Int32
+		}) {
+			labels[k] = true
+		}
 		for _, k := range []int64{-1, -2, -3, -4, -5, -6, -7, -8} {
 			key := fnKey(f) + "/class:" + classes[k]
 			if labels[k] {
